@@ -46,6 +46,15 @@ impl Prop for C05 {
         } else {
             (0..rng.range(1, 4)).map(|_| Val::u(rng.below(300))).collect()
         };
+        if _i == 1 && _n > 2 {
+            // many workers (more than any fixed small table, ring or channel bound a refactoring might introduce):
+            // a slow first item keeps W tickets in flight while the fast ones queue up behind it
+            let w = 17 + rng.below(8) + if rng.chance(1, 4) { 16 } else { 0 };
+            let n = 2 * w + rng.below(10);
+            let xs: Vec<Val> = (0..n).map(|k| Val::I(k as i64)).collect();
+            let delays: Vec<Val> = (0..n).map(|k| Val::u(if k == 0 { 30_000 } else { 0 })).collect();
+            return Val::L(vec![Val::I(1), Val::L(xs), Val::u(w), Val::L(delays)]);
+        }
         if _i == 0 && _n > 1 {
             // "every relative processing speed": one free-running case per shard in which a single item takes
             // seconds while the others are instant (a consumer-side or worker-side timeout would cut the stream
@@ -91,7 +100,7 @@ impl Prop for C05 {
         let xs: Vec<i64> = l[1].as_l()?.iter().map(|v| v.as_i()).collect::<Option<_>>()?;
         let w = l[2].as_usize()?;
         let choices: Vec<usize> = l[3].as_l()?.iter().map(|v| v.as_usize()).collect::<Option<_>>()?;
-        if xs.len() > 64 || w > 8 || xs.iter().any(|x| x.abs() > 1 << 40) {
+        if xs.len() > 128 || w > 64 || (mode == 0 && w > 8) || xs.iter().any(|x| x.abs() > 1 << 40) {
             return None;
         }
         let mut tags = vec![format!("mode{mode}"), format!("w{w}")];
@@ -119,6 +128,9 @@ impl Prop for C05 {
                 }
                 if delays.iter().any(|d| *d >= 1_000_000) {
                     tags.push("slow-item".into());
+                }
+                if w > 16 {
+                    tags.push("many-workers".into());
                 }
                 r
             }
